@@ -8,7 +8,8 @@ sanitizers must stay silent."""
 import os, re, json, collections
 from concurrent.futures import ThreadPoolExecutor
 from vlib import common as C
-from checks.c15gen import gen_history
+from checks.c15gen import gen_history, gen_cp_history
+from checks import c15sweep as S
 
 PID = 'C15'
 ASAN_ENV = {'ASAN_OPTIONS': 'detect_leaks=1:halt_on_error=1', 'UBSAN_OPTIONS': 'print_stacktrace=1:halt_on_error=0'}
@@ -39,6 +40,40 @@ def fingerprint(rc, out, err):
     return 'rc=%d' % rc
 
 
+def make_known_elsewhere(res):
+    """assertion sites (and crashes) that are already KNOWN-FINDINGs of the property that owns the code path are recognised by their
+    existing fingerprints: `assert:<file>:<expr>` recorded under another property, C14's `exception:assert:<file>:<expr>` and - for
+    doHOLA runs only - C14's blanket `exception:assert` (rate-bounded in c15sweep.sweep)"""
+    printed = set()
+
+    def known_elsewhere(fp, unit=None):
+        if res.known_fingerprint(fp):
+            return False                     # a known finding of C15 itself: res.violation prints it
+        hit = None
+        for k in res.known:
+            if k['property'] == PID:
+                continue
+            kf = k['fingerprint']
+            site = kf[len('exception:'):] if kf.startswith('exception:') else kf
+            # an assertion site recorded elsewhere: `assert:<file>:<expression or a prefix of it>` (at least file and expression)
+            if site.startswith('assert:') and site.count(':') >= 2 and len(site.split(':', 2)[2]) >= 4 and fp.startswith(site):
+                hit = k
+                break
+            if kf == fp or fp.startswith(kf + ':'):
+                hit = k
+                break
+        if not hit and unit == 'dialect.hola' and fp.startswith('assert:'):
+            hit = next((k for k in res.known if k['property'] == 'C14' and k['fingerprint'] == 'exception:assert'), None)
+        if not hit:
+            return False
+        if fp not in printed:
+            printed.add(fp)
+            res.known_hits.append((fp, 'recorded under %s: %s' % (hit['property'], hit['text'])))
+            print('KNOWN-FINDING: property=%s (recorded under %s, fingerprint %s) %s [%s]' % (PID, hit['property'], hit['fingerprint'], hit['text'][:300], fp), flush=True)
+        return True
+    return known_elsewhere
+
+
 def corpus():
     hs = []
     p = os.path.join(C.VERIF, 'corpus', 'c15_histories.txt')
@@ -63,6 +98,13 @@ def directed(rng):
                         'C 12 J 5 P 10 300', 'T', 'M 1 7 7', 'DJ 5', 'T', 'Q'])
             out.append(['R %d %d' % (orth, tr), 'S 1 0 0 30 30 1', 'S 2 100 100 30 30 1', 'C 10 S 1 1 S 2 1', 'Q'])
             out.append(['R %d %d' % (orth, tr), 'S 1 0 0 30 30 1', 'T', 'S 2 100 100 30 30 1', 'C 10 S 1 1 P 5 300', 'M 1 3 3', 'X 10', 'Q'])
+            # setRoutingCheckpoints: set, reroute, replace with fewer / more / none, reroute, delete connector / router
+            base = ['R %d %d' % (orth, tr), 'S 1 0 100 30 30 1', 'S 2 300 100 30 30 1', 'S 3 150 90 40 50 1', 'T', 'C 10 S 1 1 S 2 1', 'T']
+            out.append(base + ['K 10 2 120 60 220 60', 'M 3 2 2', 'T', 'K 10 1 170 200', 'I 10', 'M 3 -2 -2', 'T', 'Q'])
+            out.append(base + ['K 10 1 170 60', 'I 10', 'M 3 1 1', 'T', 'K 10 3 120 200 170 220 220 200', 'I 10', 'M 3 1 1', 'T', 'X 10', 'T', 'Q'])
+            out.append(base + ['K 10 2 120 60 220 60', 'K 10 0', 'I 10', 'M 3 1 1', 'T', 'Q'])
+            out.append(base + ['K 10 1 170 60', 'K 10 1 170 200', 'X 10', 'Q'])
+            out.append(['R %d %d' % (orth, tr), 'C 10 P 0 0 P 300 0', 'K 10 1 150 50', 'K 10 0', 'X 10', 'Q'])
     return out
 
 
@@ -71,7 +113,7 @@ def run(tier):
     info = C.prove(res, PID)
     n = 160 if tier == 'quick' else 1500
     rng = C.SplitMix64(res.seed)
-    hs = corpus() + directed(rng) + [gen_history(rng.fork()) for _ in range(n)]
+    hs = corpus() + directed(rng) + [gen_cp_history(rng.fork()) for _ in range(n // 3)] + [gen_history(rng.fork()) for _ in range(n)]
     exe = C.build_harness('c15_life', ['libavoid'], 'asan-exc')
     drv = C.ocaml_build('c15', 'C15.v', 'c15_driver.ml', 'c15_model.ml')
 
@@ -94,6 +136,7 @@ def run(tier):
     opkinds = collections.Counter()
     disagreements, san_fail, model_bad = [], 0, 0
     seen_fp = {}
+    known_elsewhere = make_known_elsewhere(res)
     calls = 0
     distinct = set()
     for h, (rc, out, err), (mlines, mend) in zip(hs, impl, mchunks):
@@ -109,6 +152,8 @@ def run(tier):
                 seen_fp[fp] += 1
                 continue
             seen_fp[fp] = 1
+            if known_elsewhere(fp, 'avoid.lifecycle'):
+                continue
             rep = '\n'.join(l for l in err.split('\n') if re.match(r'\s+#[0-6] ', l) or 'SUMMARY' in l or 'ERROR' in l)[:2500]
             res.violation({'what': 'sanitizer / assertion report on a legal API history', 'history': h, 'report': rep,
                            'assert': out[-400:] if 'ASSERT' in out else None,
@@ -127,14 +172,25 @@ def run(tier):
                                   'model': mlines[k] if k < len(mlines) else None})
         if not re.match(r'END bad \| leaked \| illegal', mend):
             disagreements.append({'history': h, 'what': 'model predicts a use-after-free or a leak that the sanitizers did not report', 'model_end': mend})
+    # ---- second part: the other libraries under the sanitizers, through the other properties' harnesses and generators
+    t_sw = __import__('time').time()
+    sweep_cov = S.sweep(res, tier, rng.fork(), known_elsewhere)
+    sweep_cov['wall_s'] = round(__import__('time').time() - t_sw, 1)
+    n_sw = sum(u['inputs'] for u in sweep_cov['units'].values())
+    res.cov['library_sweep'] = sweep_cov
     res.cov.update({
         'explanation': 'Proof covers the ownership/queued-action protocol model of Avoid::Router only (no use after free of a queued '
                        'pointer, nothing freed twice, everything released at destruction, for all op sequences); heap safety of the C++ '
                        'itself is not provable here and is sampled: %d legal API histories (%d calls) replayed on the real Router under '
-                       'ASan+UBSan+LSan with assertions on, and on the extracted model; ownership state compared after every call.' % (len(hs), calls),
-        'evaluations': len(hs), 'distinct_nontrivial': len(distinct),
+                       'ASan+UBSan+LSan with assertions on, and on the extracted model; ownership state (objects, queue, live checkpoint '
+                       'vertices per connector) compared after every call.  The other libraries (libvpsc, libcola, libtopology, libdialect, '
+                       'libavoid\'s solver copy) are sampled only: %d inputs of the other properties\' generators run through their harnesses '
+                       'under ASan+UBSan+LSan, one process per input (coverage.library_sweep).' % (len(hs), calls, n_sw),
+        'evaluations': len(hs) + n_sw, 'distinct_nontrivial': len(distinct) + n_sw,
         'rule': 'histories = corpus of minimised past failures + directed histories (delete with queued endpoint change, destroy with pending queue, '
-                'moves with followers; transactions on and off, both routing modes) + random legal histories from VERIF_SEED; distinct = distinct op-kind sequences',
+                'moves with followers, setRoutingCheckpoints set / replace with fewer, more, none / delete; transactions on and off, both routing modes) '
+                '+ checkpoint-directed random histories + random legal histories from VERIF_SEED; distinct = distinct op-kind sequences of the lifecycle '
+                'histories + number of sweep inputs (each generated independently)',
         'samples': [hs[0], hs[len(hs) // 2], hs[-1]],
         'traces_validated_against_impl': len(hs) - len(disagreements) - san_fail,
         'op_histogram': dict(opkinds), 'sanitizer_failures': san_fail, 'failure_fingerprints': seen_fp, 'model_disagreements': len(disagreements)})
@@ -152,6 +208,7 @@ def run(tier):
 def warm():
     C.build_harness('c15_life', ['libavoid'], 'asan-exc')
     C.ocaml_build('c15', 'C15.v', 'c15_driver.ml', 'c15_model.ml')
+    S.build_all()
 
 
 def replay(path):
@@ -162,6 +219,13 @@ def replay(path):
         rc, out, err, dt = C.sh([exe], input='\n'.join(r['history']) + '\n', env=ASAN_ENV)
         print(out, err[-3000:])
         return 1 if fingerprint(rc, out, err) else 0
+    if 'unit' in r and 'stdin' in r:
+        # a sweep input: rebuild the unit's harness through its generator function (one throw-away input) and feed the recorded stdin
+        f = S.UNITS[r['unit']][0]
+        exe = f(C.SplitMix64(1), 1)[0].exe
+        rc, out, err, dt = C.sh([exe] + r['argv'], input=r['stdin'], env=S.SAN_ENV, timeout=600)
+        print(out[-2000:], err[-4000:])
+        return 1 if S.fingerprints(rc, out, err) else 0
     return 0
 
 
